@@ -263,6 +263,16 @@ func buildExternals() map[string]extFn {
 		ex.knownPreds = append(ex.knownPreds, knownPred{mustConcreteString(a[0], "Known name"), a[1]})
 		return nil
 	}
+	m[zz+"Same"] = func(ex *Exec, fr *frame, a []value) value {
+		x, y := a[0].(iface), a[1].(iface)
+		if x.t == nil || y.t == nil {
+			return x.t == nil && y.t == nil
+		}
+		if !types.Identical(x.t, y.t) {
+			return false
+		}
+		return ex.deepEq(x.t, x.v, y.v, 0)
+	}
 	m[zz+"Reach"] = func(ex *Exec, fr *frame, a []value) value {
 		ex.event("reach:" + mustConcreteString(a[0], "Reach label"))
 		return nil
